@@ -4,9 +4,11 @@ import (
 	"fmt"
 	"math/rand"
 	"reflect"
+	"regexp"
 	"strconv"
 	"strings"
 	"time"
+	"unicode"
 
 	ucfg "github.com/elastic/go-ucfg"
 )
@@ -30,6 +32,9 @@ const (
 	kMapPtrStruct
 	kMapStruct
 	kConfig // *ucfg.Config: a captured sub-configuration, merged per policy
+	// kUntouched: an exported field the configurations never mention (see
+	// flavour): it has to come out of every Unpack as it went in
+	kUntouched
 	kOpaque // unexported field: never generated for, only compared
 )
 
@@ -59,6 +64,7 @@ type field struct {
 	hasInit    bool   // primitive type with InitDefaults
 	elemPtr    bool   // kSliceStruct: the elements are pointers to structs
 	elem       *field // kArrayComp: description of one element (kStruct, kMapPrim or kSlicePrim)
+	flavour    string // kUntouched: interface-with-initdefaults, recursive-pointer, config-by-value
 	owner      *stype
 }
 
@@ -93,6 +99,8 @@ var (
 	tFloat32   = reflect.TypeOf(float32(0))
 	tFloat64   = reflect.TypeOf(float64(0))
 	tConfigPtr = reflect.TypeOf((*ucfg.Config)(nil))
+	tConfigVal = reflect.TypeOf(ucfg.Config{})
+	tRegexp    = reflect.TypeOf(regexp.Regexp{})
 )
 
 func implementsPtr(t, iface reflect.Type) bool {
@@ -100,6 +108,9 @@ func implementsPtr(t, iface reflect.Type) bool {
 }
 
 func isPrimType(t reflect.Type) bool {
+	if t == tRegexp {
+		return true // a struct by kind, unpacked from a string like a primitive
+	}
 	switch t.Kind() {
 	case reflect.Bool, reflect.String,
 		reflect.Int, reflect.Int8, reflect.Int16, reflect.Int32, reflect.Int64,
@@ -114,6 +125,9 @@ func isPrimType(t reflect.Type) bool {
 func family(t reflect.Type) string {
 	if t == tDuration {
 		return "duration"
+	}
+	if t == tRegexp {
+		return "regexp"
 	}
 	switch t.Kind() {
 	case reflect.Bool:
@@ -136,6 +150,11 @@ func primName(t reflect.Type) string {
 		return "duration"
 	case tLibPort:
 		return "libport"
+	case tRegexp:
+		return "regexp"
+	}
+	if t.Name() != "" && t.PkgPath() != "" {
+		return "named-" + t.Name() // the hand-written named primitives
 	}
 	return t.Kind().String()
 }
@@ -170,6 +189,8 @@ func (f *field) shape() string {
 		return "map-struct"
 	case kConfig:
 		return "config"
+	case kUntouched:
+		return f.flavour
 	}
 	return "opaque"
 }
@@ -249,6 +270,12 @@ func describe(t reflect.Type, tagKey string) *stype {
 		f.hint = parseHint(sf.Tag.Get("c13"), sf.Tag.Get("validate"))
 		ft := sf.Type
 		switch {
+		case ft == tConfigVal:
+			f.kind, f.flavour = kUntouched, "config-by-value"
+		case ft.Kind() == reflect.Interface:
+			f.kind, f.flavour = kUntouched, "interface-with-initdefaults"
+		case ft.Kind() == reflect.Ptr && ft.Elem() == t:
+			f.kind, f.flavour = kUntouched, "recursive-pointer"
 		case isPrimType(ft):
 			f.kind, f.prim, f.hasInit = kPrim, ft, implementsPtr(ft, tIniter)
 		case ft.Kind() == reflect.Ptr && isPrimType(ft.Elem()):
@@ -288,7 +315,7 @@ func (st *stype) countLeaves() int {
 	n := 0
 	for _, f := range st.fields {
 		switch {
-		case f.unexported || f.ignore:
+		case f.unexported || f.ignore || f.kind == kUntouched:
 		case f.kind == kStruct || f.kind == kPtrStruct:
 			n += f.sub.countLeaves()
 		default:
@@ -329,10 +356,67 @@ type tgen struct {
 
 // tag builds the struct tag of field num: the config tag set from opts, and --
 // for types with two tag sets, 4 fields in 5 -- the alt tag set from altOpts.
+// tagName spells the setting name of field num: half of them lower case, the
+// others with upper-case letters (leading, inside, all), separators, non-ASCII
+// letters with and without case. The number keeps them unique whatever is
+// done to their case.
+func (g *tgen) tagName(base string, num int) string {
+	n := strconv.Itoa(num)
+	up := strings.ToUpper(base)
+	switch g.r.Intn(16) {
+	case 0, 1:
+		return up + n
+	case 2, 3:
+		return "max" + up + n
+	case 4:
+		return up + "LS" + n + "x"
+	case 5:
+		return base + "_" + n + "-" + up
+	case 6:
+		return "\u00f1" + base + n // lower-case non-ASCII
+	case 7:
+		return "\u00dc" + base + n // upper-case non-ASCII
+	case 8:
+		return "\u65e5\u672c" + base + n // no case at all
+	}
+	return base + n
+}
+
+// goName spells the Go name of field num (the setting name of a field without
+// a name in its tag is the lower-cased Go name).
+func (g *tgen) goName(num int) string {
+	n := strconv.Itoa(num)
+	switch g.r.Intn(8) {
+	case 0:
+		return "MaxF" + n
+	case 1:
+		return "F\u00dc" + n
+	case 2:
+		return "F_x" + n
+	}
+	return "F" + n
+}
+
+// nameStyle classifies a setting name for the monitors.
+func nameStyle(name string) string {
+	st := "lower-ascii"
+	for _, c := range name {
+		switch {
+		case c > 127 && unicode.IsUpper(c):
+			return "non-ascii-upper"
+		case c > 127:
+			st = "non-ascii"
+		case unicode.IsUpper(c) && st == "lower-ascii":
+			st = "ascii-upper"
+		}
+	}
+	return st
+}
+
 func (g *tgen) tag(num int, opts, altOpts []string, extra string) reflect.StructTag {
 	name := ""
 	if g.r.Intn(10) < 7 {
-		name = "k" + strconv.Itoa(num)
+		name = g.tagName("k", num)
 	}
 	t := ""
 	if name != "" || len(opts) > 0 || g.r.Intn(2) > 0 {
@@ -341,7 +425,7 @@ func (g *tgen) tag(num int, opts, altOpts []string, extra string) reflect.Struct
 	if g.twoTags && g.r.Intn(5) > 0 {
 		name = ""
 		if g.r.Intn(10) < 7 {
-			name = "q" + strconv.Itoa(num)
+			name = g.tagName("q", num)
 		}
 		t += ` ` + altTag + `:"` + strings.Join(append([]string{name}, altOpts...), ",") + `"`
 	}
@@ -359,7 +443,7 @@ func (g *tgen) primStruct() reflect.Type {
 	var fs []reflect.StructField
 	for i, n := 0, 1+g.r.Intn(3); i < n; i++ {
 		g.n++
-		fs = append(fs, reflect.StructField{Name: "F" + strconv.Itoa(g.n), Type: primTypes[g.r.Intn(len(primTypes))], Tag: g.tag(g.n, nil, nil, "")})
+		fs = append(fs, reflect.StructField{Name: g.goName(g.n), Type: primTypes[g.r.Intn(len(primTypes))], Tag: g.tag(g.n, nil, nil, "")})
 	}
 	return reflect.StructOf(fs)
 }
@@ -374,13 +458,13 @@ func (g *tgen) structType(depth, nf int, validators bool) reflect.Type {
 	for i := 0; i < nf; i++ {
 		g.n++
 		num := g.n
-		sf := reflect.StructField{Name: "F" + strconv.Itoa(num)}
+		sf := reflect.StructField{Name: g.goName(num)}
 		extra := ""
 		inline := false
 		var pool []string      // the policy tag options this kind of field may carry ...
 		polNum, polDen := 0, 1 // ... and how often
-		x := r.Intn(105)
-		if depth == 0 && x >= 44 && x < 62 {
+		x := r.Intn(113)
+		if depth == 0 && (x >= 44 && x < 62 || x >= 111) {
 			x = r.Intn(44)
 		}
 		nested := func(v bool) reflect.Type {
@@ -396,8 +480,8 @@ func (g *tgen) structType(depth, nf int, validators bool) reflect.Type {
 				vr := rules[r.Intn(len(rules))]
 				extra = `validate:"` + vr.validate + `" c13:"` + vr.c13 + `"`
 			}
-		case x < 38:
-			sf.Type = tLibPort
+		case x < 38: // named primitives with InitDefaults (constant, conditional, no-op)
+			sf.Type = namedPrims[r.Intn(len(namedPrims))]
 		case x < 44:
 			sf.Type = reflect.PtrTo(primTypes[r.Intn(len(primTypes))])
 		case x < 51: // struct by value
@@ -412,6 +496,9 @@ func (g *tgen) structType(depth, nf int, validators bool) reflect.Type {
 			pool, polNum, polDen = structPols, 2, 5
 		case x < 76:
 			sf.Type = reflect.SliceOf(elemTypes[r.Intn(len(elemTypes))])
+			if r.Intn(7) == 0 {
+				sf.Type = tLibList // a named list type with an InitDefaults method
+			}
 			pool, polNum, polDen = listPols, 1, 2
 		case x < 81:
 			sf.Type = reflect.SliceOf(g.primStruct())
@@ -421,7 +508,9 @@ func (g *tgen) structType(depth, nf int, validators bool) reflect.Type {
 			pool, polNum, polDen = listPols, 1, 2
 		case x < 87:
 			sf.Type = reflect.ArrayOf(1+r.Intn(4), elemTypes[r.Intn(len(elemTypes))])
-			if r.Intn(5) < 2 { // composite elements
+			if r.Intn(7) == 0 {
+				sf.Type = tLibArr // a named array type with an InitDefaults method
+			} else if r.Intn(5) < 2 { // composite elements
 				var et reflect.Type
 				switch r.Intn(5) {
 				case 0:
@@ -438,13 +527,27 @@ func (g *tgen) structType(depth, nf int, validators bool) reflect.Type {
 			}
 		case x < 94:
 			sf.Type = reflect.MapOf(tString, elemTypes[r.Intn(len(elemTypes))])
+			pool, polNum, polDen = listPols, 1, 3
 		case x < 97:
 			sf.Type = reflect.MapOf(tString, reflect.PtrTo(g.primStruct()))
+			pool, polNum, polDen = listPols, 1, 3
 		case x < 100:
 			sf.Type = reflect.MapOf(tString, g.primStruct())
-		default: // *ucfg.Config capturing a sub-configuration
+			pool, polNum, polDen = listPols, 1, 3
+		case x < 105: // *ucfg.Config capturing a sub-configuration
 			sf.Type = tConfigPtr
 			pool, polNum, polDen = listPols, 1, 2
+		case x < 107: // a regular expression, by value or by pointer
+			sf.Type = tRegexp
+			if r.Intn(2) == 0 {
+				sf.Type = reflect.PtrTo(tRegexp)
+			}
+		case x < 111: // fields no configuration mentions
+			sf.Type = []reflect.Type{tLibIniter, tConfigVal, tLibIniter, tConfigVal}[x-107]
+		default: // inline struct by pointer
+			sf.Type = reflect.PtrTo(g.structType(depth-1, 1+r.Intn(3), false))
+			inline = true
+			pool, polNum, polDen = structPols, 2, 5
 		}
 		// one set of tag options per tag name: the same inline-ness, policy and
 		// ignore flag drawn independently
@@ -473,14 +576,18 @@ func (g *tgen) structType(depth, nf int, validators bool) reflect.Type {
 }
 
 // genTop draws the type of a case: 1 in 8 the hand-written LibTop, 1 in 8 one
-// of the hand-written self-unpacking types, else a generated type (half of
-// them with two tag sets).
+// of the hand-written self-unpacking types, 1 in 64 the self-referential
+// LibRing, else a generated type (half of them with two tag sets).
 func genTop(r *rand.Rand) reflect.Type {
 	switch r.Intn(8) {
 	case 0:
 		return tLibTop
 	case 1:
 		return selfStructs[r.Intn(len(selfStructs))]
+	case 2:
+		if r.Intn(8) == 0 {
+			return tLibRing
+		}
 	}
 	g := &tgen{r: r, twoTags: r.Intn(2) == 0}
 	return g.structType(2, 3+r.Intn(6), true)
